@@ -315,6 +315,8 @@ func runTable(c Case) (any, error) {
 		for i, v := range rr {
 			if v == nil {
 				vals[i] = "NULL"
+			} else if strings.HasPrefix(strings.ToLower(qsch[i].Type.String()), "bit") {
+				vals[i] = v.(string) // the CSV writer emits BIT values as base-10 integers
 			} else if _, isBin := binaryCol(qsch[i]); isBin {
 				vals[i] = sqlfmt.VerifHexEncodeBytes([]byte(v.(string)))
 			} else {
